@@ -1,3 +1,4 @@
+#include <algorithm>
 #include <nano/core/sampling.h>
 #include <nano/gboost/sampler.h>
 
@@ -16,7 +17,8 @@ sampler_t::sampler_t(const indices_t& samples, const gboost_subsample type, cons
 
 indices_t sampler_t::sample(const tensor2d_t& errors_losses, const tensor4d_t& gradients)
 {
-    const auto count = static_cast<tensor_size_t>(m_ratio * static_cast<scalar_t>(m_samples.size()));
+    const auto count =
+        std::max(tensor_size_t{1}, static_cast<tensor_size_t>(m_ratio * static_cast<scalar_t>(m_samples.size())));
 
     switch (m_type)
     {
